@@ -820,4 +820,106 @@ example : keyHit (.num (.int (.small (-1)))) (.num (.complex (.fin (-1) 0) .nzer
 example : keyHit (.list [.num (.float .nzero)]) (.list [.num (.complex .nzero .nzero)]) = true := by decide +kernel
 
 
+/-! ## `==` on dictionaries: values are compared with `==` (NaN ≠ NaN), contents only -/
+
+theorem valEqEntries_iff (A B : List (Val × Val)) :
+    valEqEntries A B = true ↔
+      ∀ x ∈ A, ∃ e, B.find? (fun e => keyHit x.1 e.1) = some e ∧ valEq x.2 e.2 = true := by
+  induction A with
+  | nil => simp [valEqEntries]
+  | cons x A ih =>
+    obtain ⟨k, v⟩ := x
+    simp only [valEqEntries, Bool.and_eq_true, ih, List.mem_cons, forall_eq_or_imp]
+    constructor
+    · rintro ⟨h1, h2⟩
+      refine ⟨?_, h2⟩
+      cases hf : B.find? (fun e => keyHit k e.1) with
+      | none => rw [hf] at h1; simp at h1
+      | some e => rw [hf] at h1; exact ⟨e, rfl, h1⟩
+    · rintro ⟨⟨e, hf, hv⟩, h2⟩
+      refine ⟨?_, h2⟩
+      have : B.find? (fun e => keyHit k e.1) = some e := hf
+      rw [this]; exact hv
+
+/-- **dict_eq_not_reflexive_with_nan_value**: a dictionary (a real map: no two stored keys hit each
+other) one of whose VALUES is not `==` to itself — a NaN, a list or dictionary containing a NaN, at
+any depth — is not `==` to itself; keys treat NaN as equal to itself, values do not.  There is no
+identity shortcut: the answer is a function of the contents. -/
+theorem dict_eq_not_reflexive_with_nan_value (A : List (Val × Val)) (d d' : Option Val) (pA : A.Pairwise NoHit)
+    (x : Val × Val) (hx : x ∈ A) (hv : valEq x.2 x.2 = false) :
+    valEq (.dict A d) (.dict A d') = false := by
+  cases h : valEq (.dict A d) (.dict A d') with
+  | false => rfl
+  | true =>
+    simp only [valEq, Bool.and_eq_true] at h
+    obtain ⟨e, hf, he⟩ := (valEqEntries_iff A A).mp h.2 x hx
+    have heA := List.mem_of_find?_eq_some hf
+    have hhit : keyHit x.1 e.1 = true := List.find?_some (p := fun (e : Val × Val) => keyHit x.1 e.1) hf
+    have : x = e := eq_of_pairwise_not (S := fun a b => keyHit a.1 b.1 = true) pA hx heA hhit
+    subst this
+    rw [hv] at he; cases he
+
+/-- **dict_eq_depends_only_on_contents** (left operand): `==` does not depend on the order in which
+the entries of the left dictionary are stored (nor on any sharing history — the model has none) -/
+theorem dict_eq_depends_only_on_contents (A A' B : List (Val × Val)) (d d' e : Option Val) (h : A.Perm A') :
+    valEq (.dict A d) (.dict B e) = valEq (.dict A' d') (.dict B e) := by
+  simp only [valEq, h.length_eq]
+  congr 1
+  apply Bool.eq_iff_iff.mpr
+  rw [valEqEntries_iff, valEqEntries_iff]
+  constructor
+  · intro H x hx; exact H x (h.mem_iff.mpr hx)
+  · intro H x hx; exact H x (h.mem_iff.mp hx)
+
+/-- … and on the right operand as well, for real maps with keys of any nesting -/
+theorem dict_eq_depends_only_on_contents_right (A B B' : List (Val × Val)) (d e e' : Option Val)
+    (hA : ∀ x ∈ A, KeyWF x.1) (hB : ∀ x ∈ B, KeyWF x.1) (pB : B.Pairwise NoHit) (h : B.Perm B') :
+    valEq (.dict A d) (.dict B e) = valEq (.dict A d) (.dict B' e') := by
+  have pB' : B'.Pairwise NoHit := by
+    refine h.pairwise pB ?_
+    intro a b hab; exact ⟨hab.2, hab.1⟩
+  have hB' : ∀ x ∈ B', KeyWF x.1 := fun x hx => hB x (h.mem_iff.mpr hx)
+  -- the entry found for a key is the same in both orders
+  have key : ∀ (C C' : List (Val × Val)), C.Perm C' → (∀ x ∈ C, KeyWF x.1) → C'.Pairwise NoHit →
+      ∀ x ∈ A, ∀ f, C.find? (fun e => keyHit x.1 e.1) = some f → C'.find? (fun e => keyHit x.1 e.1) = some f := by
+    intro C C' hp hC pC' x hx f hf
+    have hfC := List.mem_of_find?_eq_some hf
+    have hhit : keyHit x.1 f.1 = true := List.find?_some (p := fun (e : Val × Val) => keyHit x.1 e.1) hf
+    have hsome : (C'.find? (fun e => keyHit x.1 e.1)).isSome = true :=
+      List.find?_isSome.mpr ⟨f, hp.mem_iff.mp hfC, hhit⟩
+    obtain ⟨f', hf'⟩ := Option.isSome_iff_exists.mp hsome
+    have hf'C := List.mem_of_find?_eq_some hf'
+    have hhit' : keyHit x.1 f'.1 = true := List.find?_some (p := fun (e : Val × Val) => keyHit x.1 e.1) hf'
+    have E := impl_isEquiv_full
+    have kx := hA x hx
+    have kf := hC f hfC
+    have kf' := hC f' (hp.mem_iff.mpr hf'C)
+    have h1 : keyHit f.1 x.1 = true := by rw [E.symm f.1 x.1 kf kx]; exact hhit
+    have h2 := E.trans f.1 x.1 f'.1 kf kx kf' h1 hhit'
+    have : f = f' := eq_of_pairwise_not (S := fun a b => keyHit a.1 b.1 = true) pC' (hp.mem_iff.mp hfC) hf'C h2
+    rw [hf', this]
+  simp only [valEq, h.length_eq]
+  congr 1
+  apply Bool.eq_iff_iff.mpr
+  rw [valEqEntries_iff, valEqEntries_iff]
+  constructor
+  · intro H x hx
+    obtain ⟨f, hf, hv⟩ := H x hx
+    exact ⟨f, key B B' h hB pB' x hx f hf, hv⟩
+  · intro H x hx
+    obtain ⟨f, hf, hv⟩ := H x hx
+    exact ⟨f, key B' B h.symm hB' pB x hx f hf, hv⟩
+
+/-! the three depths the harness exercises -/
+example : valEq (.dict [(.num (.int (.small 1)), .num (.float .nan))] none)
+    (.dict [(.num (.int (.small 1)), .num (.float .nan))] none) = false := by decide +kernel
+example : valEq (.dict [(.num (.int (.small 1)), .list [.num (.float .nan)])] none)
+    (.dict [(.num (.int (.small 1)), .list [.num (.float .nan)])] none) = false := by decide +kernel
+example : valEq (.dict [(.num (.int (.small 1)), .dict [(.num (.int (.small 2)), .num (.float .nan))] none)] none)
+    (.dict [(.num (.int (.small 1)), .dict [(.num (.int (.small 2)), .num (.float .nan))] none)] none) = false := by
+  decide +kernel
+example : valEq (.dict [(.num (.float .nan), .num (.int (.small 1)))] none)
+    (.dict [(.num (.float .nan), .num (.int (.small 1)))] none) = true := by decide +kernel
+
+
 end Noulith.C09
